@@ -1231,7 +1231,7 @@ class Emitter:
     dispatch_needed = {}
 
     new_helpers = {}
-    WORDBUF_RX = re.compile(r'St6vectorIhSaIhEE|_Vector_baseIhSaIhEE|allocatorIhE|^_ZN4sconC')
+    WORDBUF_RX = re.compile(r'^$NEVER')   # word-typed state areas disabled: plain byte arrays fold better under concrete control
     def wordbuf_helper(self):
         """raw state areas (std::vector<uint8_t>) are allocated as arrays of 64-bit words: a pointer
         stored at an aligned offset is then ONE element, survives path merges as a single
@@ -1239,13 +1239,13 @@ class Emitter:
         if 'wordbuf' not in self.new_helpers:
             lines = ['static uint8_t *vp_new_wordbuf(uint64_t nbytes) {',
                      '  uint64_t cnt = (nbytes + 7) / 8;',
-                     '  void **p;',
+                     '  uint64_t *p;',
                      '#ifdef __CPROVER__']
             ladder = [1, 2, 3, 4, 6, 8, 12, 16, 24, 32, 48, 64, 96, 128, 256]
             for i, k in enumerate(ladder):
-                lines.append('  %sif (cnt <= %d) p = (void**)malloc(sizeof(void*) * %d);' % ('else ' if i else '', k, k))
+                lines.append('  %sif (cnt <= %d) p = (uint64_t*)malloc(sizeof(uint64_t) * %d);' % ('else ' if i else '', k, k))
             lines.append('  else { VP_ASSERT(0, "state area larger than 2048 bytes (outside the modelled sizes)"); VP_ASSUME(0); p = 0; }')
-            lines += ['#else', '  p = (void**)malloc(nbytes ? nbytes : 1);', '#endif', '  VP_ASSUME(p != 0);', '  return (uint8_t*)p;', '}']
+            lines += ['#else', '  p = (uint64_t*)malloc(nbytes ? nbytes : 1);', '#endif', '  VP_ASSUME(p != 0);', '  return (uint8_t*)p;', '}']
             self.new_helpers['wordbuf'] = ('vp_new_wordbuf', '\n'.join(lines))
         return 'vp_new_wordbuf'
 
@@ -1368,6 +1368,7 @@ class FuncEmitter:
         self.p2i = {}           # local iN defined by ptrtoint -> C expr of the pointer
         self.icmp_here = {}
         self.entry_nn = []
+        self.ptrshadow = {}     # i64 local loaded from a pointer-shaped 8-byte object -> C var holding it as void*
         self.nonnull_block = set()
         self.nonnull = set()    # locals known non-null (allocas, GEP results, nonnull params, checked)
         self.vt_of = {}         # local holding a loaded vptr -> static class name of the object
@@ -1867,6 +1868,12 @@ class FuncEmitter:
         elif op == 'load':
             self.nn(I['a'])
             c.append('%s = *%s;' % (D, self.val(I['pt'], I['a'])))
+            if I['t'] == INT(64) and self.ptr_shaped(I['a']):
+                # clang copies 8-byte pointer wrappers (unique_ptr, tuple<T*>) as i64: keep the pointer
+                sh = D + '_p'
+                self.decls.append('  void *%s;' % sh)
+                c.append('%s = *(void**)%s;' % (sh, self.val(I['pt'], I['a'])))
+                self.ptrshadow[d] = sh
             a = I['a']
             if a[0] == 'local':
                 lt = E.resolve(I['t'])
@@ -1885,7 +1892,10 @@ class FuncEmitter:
                     self.fp_of[d] = (self.vt_of[a[1]], 0)
         elif op == 'store':
             self.nn(I['b'])
-            c.append('*%s = %s;' % (self.val(I['pt'], I['b']), self.val(I['t'], I['a'])))
+            if I['t'] == INT(64) and I['a'][0] == 'local' and I['a'][1] in self.ptrshadow and self.ptr_shaped(I['b']):
+                c.append('*(void**)%s = %s;' % (self.val(I['pt'], I['b']), self.ptrshadow[I['a'][1]]))
+            else:
+                c.append('*%s = %s;' % (self.val(I['pt'], I['b']), self.val(I['t'], I['a'])))
         elif op == 'getelementptr':
             nonzero = any(not (iv[0] == 'int' and iv[1] == 0) for it, iv in I['idx'])
             if nonzero or len(I['idx']) > 1:
@@ -1978,6 +1988,26 @@ class FuncEmitter:
             pass
         else:
             raise Unsupported("emit " + op)
+
+    def ptr_shaped(self, v):
+        """is v (an i64*) a bitcast of a pointer to an 8-byte object whose first leaf is a pointer?"""
+        if v[0] != 'local' or v[1] not in self.bitcast_src:
+            return False
+        st = self.E.resolve(self.bitcast_src[v[1]][0])
+        if st[0] != 'ptr':
+            return False
+        t = st[1]
+        for _ in range(12):
+            rt = self.E.resolve(t)
+            if rt[0] == 'ptr':
+                return True
+            if rt[0] == 'struct' and rt[1]:
+                t = rt[1][0]
+            elif rt[0] == 'arr':
+                t = rt[2]
+            else:
+                return False
+        return False
 
     def nn(self, v):
         """explicit null test before a dereference through SSA pointer v: makes the UB an assertion
